@@ -1,9 +1,85 @@
-(* C36 - accepted quota groups always fit inside their parents. *)
+(* C36 - accepted quota groups always fit inside their parents.
+   This file holds the property theorems only: statement, `exact <lemma>`, Print Assumptions.
+   Model: models/Quota.v (snap/quota/quota.go and resources.go function by function). `run ncpu [] qs` is the forest of
+   groups after the history qs of NewGroup / NewSubGroup / UpdateQuotaLimits requests, refused requests leaving it as it was.
+   All theorems quantify over EVERY history (no bound on length, depth or values; values are unbounded integers).
+
+   FULL STATEMENT (kept visible): after every history, for every group with a memory, thread or CPU limit the sum over its
+   sub-groups of max(sub-group limit, sub-group reservation) is within the limit, every group's cpu set lies within the
+   nearest ancestor's, and a refused request changes nothing.
+   PROVED: memory and threads (C36_fit_invariant_mem_threads_partial, C36_every_group_fits_mem_threads), nesting of cpu sets
+   (C36_cpuset_nesting), refusal (C36_refused_unchanged).
+   REFUTED on the faithful model and on the real code: the CPU part (C36_cpu_fit_refuted, C36_cpu_fit_set_only_ancestor_refuted;
+   two independent defects, KNOWN_FINDINGS keys cpuset-change-over-count0-group and cpu-check-stops-at-cpuset-only-ancestor).
+   NOT PROVED here: a guarded CPU theorem (what the CPU fit does guarantee outside the two defect classes); the CPU fit is
+   monitored on the observed trees of the implementation in every run (Quota.inv_cpu), which is testing, not proof. *)
 From Coq Require Import List ZArith NArith Bool.
 Import ListNotations.
 Require Import V.models.Quota V.proofs.QuotaProofs.
 Open Scope Z_scope.
 
-Theorem C36_refused_unchanged : forall ncpu st q, step ncpu st q = None -> run ncpu st [q] = st.
-Proof. exact step_refused_unchanged. Qed.
+(* after every history of requests, every tree of the forest fits for memory and for threads *)
+Theorem C36_fit_invariant_mem_threads_partial : forall (ncpu : Z) (qs : list req),
+  inv_mem (run ncpu [] qs) = true /\ inv_thr (run ncpu [] qs) = true.
+Proof. exact fit_invariant_mem_threads. Qed.
+Print Assumptions C36_fit_invariant_mem_threads_partial.
+
+(* the same, group by group: any group x anywhere in the forest that has a memory (thread) limit holds the combined
+   reservations of its sub-groups, resv being the sum over the sub-groups of max(limit, reservation) *)
+Theorem C36_every_group_fits_mem_threads : forall (ncpu : Z) (qs : list req) (root x : group),
+  In root (run ncpu [] qs) -> in_tree x root ->
+  (l_mem (lim x) <> 0 -> resv l_mem x <= l_mem (lim x)) /\
+  (l_thr (lim x) <> 0 -> resv l_thr x <= l_thr (lim x)).
+Proof. exact every_group_fits_mem_threads. Qed.
+Print Assumptions C36_every_group_fits_mem_threads.
+
+Theorem C36_reservation_is_sum_of_max : forall (f : limits -> Z) i l ss,
+  resv f (G i l ss) = fold_right (fun c acc => Z.max (f (lim c)) (resv f c) + acc) 0 ss.
+Proof. exact resv_is_sum. Qed.
+Print Assumptions C36_reservation_is_sum_of_max.
+
+(* after every history, every group's own cpu set lies within the cpu set of the nearest ancestor that has one *)
+Theorem C36_cpuset_nesting : forall (ncpu : Z) (qs : list req), inv_set (run ncpu [] qs) = true.
+Proof. exact cpuset_nesting_invariant. Qed.
+Print Assumptions C36_cpuset_nesting.
+
+(* a refused request leaves the groups unchanged: the rest of the history runs from the same forest *)
+Theorem C36_refused_unchanged : forall (ncpu : Z) (st : forest) (q : req) (qs : list req),
+  step ncpu st q = None -> run ncpu st (q :: qs) = run ncpu st qs.
+Proof. exact refused_unchanged. Qed.
 Print Assumptions C36_refused_unchanged.
+
+(* the CPU part of the property is false. Witness 1 (finding 3): parent 2x100% with cpu set {0,1}, child 50% (count 0, so
+   its reservation is percentage x size of the inherited set); enlarging the parent's cpu set to {0..7} is accepted and
+   the child's reservation becomes 400 > 200 *)
+Theorem C36_cpu_fit_refuted : exists (ncpu : Z) (qs : list req),
+  all_accepted ncpu qs = true /\ inv_cpu ncpu (run ncpu [] qs) = false.
+Proof. exact cpu_fit_refuted. Qed.
+Print Assumptions C36_cpu_fit_refuted.
+
+(* Witness 2, creations only: root 2x25% (50), child with only a cpu set {0,2,4,5}, grandchild 4x100% accepted because
+   the validator's parent loop stops at the child (which has a cpu set but no cpu quota) and never reaches the root *)
+Theorem C36_cpu_fit_set_only_ancestor_refuted : exists (ncpu : Z) (qs : list req),
+  forallb is_creation qs = true /\ all_accepted ncpu qs = true /\ inv_cpu ncpu (run ncpu [] qs) = false.
+Proof. exact cpu_fit_set_only_ancestor_refuted. Qed.
+Print Assumptions C36_cpu_fit_set_only_ancestor_refuted.
+
+(* non-vacuity: histories with accepted nested creations and updates exist, requests are refused for lack of room, and
+   the invariant is not trivially true of arbitrary forests *)
+Definition mib (n : Z) : Z := n * 1024 * 1024.
+Definition ex_hist : list req :=
+  [ RNew 1 (mkRes (Some (mib 4)) None None None);
+    RSub [0%nat] 2 (mkRes None None None (Some 8));
+    RSub [0%nat; 0%nat] 3 (mkRes (Some (mib 2)) None None None);
+    RSub [0%nat; 0%nat] 4 (mkRes (Some (mib 2)) None None None);
+    RSub [0%nat] 5 (mkRes (Some (mib 1)) None None None);                 (* refused: 2+2+1 > 4 *)
+    RUpd [0%nat; 0%nat; 1%nat] (mkRes (Some (mib 3)) None None None);     (* refused *)
+    RUpd [0%nat] (mkRes (Some (mib 5)) None None None);                   (* accepted *)
+    RUpd [0%nat; 0%nat; 1%nat] (mkRes (Some (mib 3)) None None None) ].   (* now accepted *)
+Example C36_ex_run : run 4 [] ex_hist =
+  [G 1 (mkLim (mib 5) 0 0 0 []) [G 2 (mkLim 0 8 0 0 []) [G 3 (mkLim (mib 2) 0 0 0 []) []; G 4 (mkLim (mib 3) 0 0 0 []) []]]].
+Proof. vm_compute. reflexivity. Qed.
+Example C36_ex_refused : step 4 (run 4 [] (firstn 4 ex_hist)) (RSub [0%nat] 5 (mkRes (Some (mib 1)) None None None)) = None.
+Proof. vm_compute. reflexivity. Qed.
+Example C36_ex_not_trivial : inv_mem [G 1 (mkLim (mib 1) 0 0 0 []) [G 2 (mkLim (mib 2) 0 0 0 []) []]] = false.
+Proof. vm_compute. reflexivity. Qed.
